@@ -139,6 +139,7 @@ WRAPPER_SIGS = {
                   facts={'out is None': True})],
     'pb_qr_full': [sig(['Qbar', 'Rbar', 'A', 'Q', 'R', 'out'], order_rel={('N', 'M'): 'N'}, Qbar=_o('M', 'M'), Rbar=_o('M', 'N'), A=_o('M', 'N'), Q=_o('M', 'M'), R=_o('M', 'N'),
                        facts={'out is None': True})],
+    'pb_diag': [sig(['ybar', 'x', 'y', 'k', 'out'], name='vector', ybar=_o('N', 'N'), x=_o('N'), y=_o('N', 'N'), facts={'out is None': True})],
     'pb_svd': [sig(['Ubar', 'sbar', 'Vbar', 'A', 'U', 's', 'V', 'out'], order_rel={('N', 'M'): 'M'}, Ubar=_o('M', 'M'), sbar=_o('M'), Vbar=_o('N', 'N'), A=_o('M', 'N'),
                    U=_o('M', 'M'), s=_o('M'), V=_o('N', 'N'), facts={'out is None': True})],
     'pb_trace': [sig(['ybar', 'x', 'y', 'out'], name='wide or square', order_rel={('N', 'M'): 'M'}, ybar=_o(), x=_o('M', 'N'), y=_o(), facts={'out is None': True}),
